@@ -10,6 +10,7 @@
 -/
 import TT.Model.Capture
 import TT.Props.C12
+import TT.Lemmas.CapSpecMain
 
 namespace TT
 
@@ -147,6 +148,97 @@ def expectedStorage (flt : LFilter) (sites : List CallSite) (calls : List SubCal
     rootSpans := (spans.zipIdx.filter fun (s, _) => s.parentC.isNone).map (·.2)
     rootEvents := (events.zipIdx.filter fun (e, _) => e.parentC.isNone).map (·.2) }
 
+/-! ### The reference coincides with its helper copy (`TT/Lemmas/CapSpecDefs.lean`)
+
+The proof of the theorem lives in `TT/Lemmas/CapSpec*.lean`, which cannot import this file; they
+work with literal copies (`cs_…`) of the definitions above. -/
+theorem cs_br_logSubF (g : Option Nat) : logSubF g = cs_logSubF g := rfl
+theorem cs_br_callLogF (g : Option Nat) (sites ops) : callLogF g sites ops = cs_callLogF g sites ops := rfl
+
+def cs_toH (h : HierSt) : cs_Hier := ⟨h.stack, h.parent⟩
+
+theorem cs_br_resolve (h : HierSt) (p : SParent) : resolveS h p = cs_resolve (cs_toH h) p := by
+  cases p <;> rfl
+
+theorem cs_br_step (h : HierSt) (c : SubCall) : cs_toH (h.step c) = (cs_toH h).step c := by
+  cases c <;> rfl
+
+theorem cs_br_hierBefore (h : HierSt) (calls : List SubCall) :
+    (hierBefore h calls).map (fun x => (cs_toH x.1, x.2)) = cs_hierBefore (cs_toH h) calls := by
+  induction calls generalizing h with
+  | nil => rfl
+  | cons c cs ih => simp [hierBefore, cs_hierBefore, ih, cs_br_step]
+
+theorem cs_br_hierFinal_aux (h : HierSt) (calls : List SubCall) :
+    cs_toH (calls.foldl HierSt.step h) = calls.foldl cs_Hier.step (cs_toH h) := by
+  induction calls generalizing h with
+  | nil => rfl
+  | cons c cs ih => simp [ih, cs_br_step]
+
+theorem cs_br_hierFinal (calls : List SubCall) : cs_toH (hierFinal calls) = cs_hierFinal calls :=
+  cs_br_hierFinal_aux {} calls
+
+theorem cs_br_nearest (parent cap) (fuel : Nat) (s : Option Nat) :
+    nearestCaptured parent cap fuel s = cs_nearest parent cap fuel s := by
+  induction fuel generalizing s with
+  | zero => rfl
+  | succ n ih =>
+    cases s with
+    | none => rfl
+    | some id =>
+      simp only [nearestCaptured, cs_nearest, ih]
+      cases cap.get id <;> rfl
+
+theorem cs_br_cap (flt sites calls) : capturedIds flt sites calls = cs_cap flt sites calls := rfl
+theorem cs_br_values (calls id) : expectedValues calls id = cs_values calls id := rfl
+theorem cs_br_handles (calls id) : handlesAtEnd calls id = cs_handles calls id := rfl
+theorem cs_br_maxId (calls) : maxSpanId calls = cs_maxId calls := rfl
+
+theorem cs_br_closed (calls) (h : HierSt) (m fuel id : Nat) :
+    closedAtEnd calls h m fuel id = cs_closedAtEnd calls (cs_toH h) m fuel id := by
+  induction fuel generalizing id with
+  | zero => rfl
+  | succ n ih =>
+    simp only [closedAtEnd, cs_closedAtEnd, ih, cs_br_handles]
+    rfl
+
+
+def cs_toSI (s : RefSpanInfo) : cs_SI := ⟨s.id, s.k, s.parentC⟩
+def cs_toEI (s : RefEventInfo) : cs_EI := ⟨s.k, s.values, s.parentC⟩
+
+theorem cs_br_refSpans (flt sites calls) :
+    (refSpans flt sites calls).map cs_toSI = cs_refSpans flt sites calls := by
+  unfold refSpans cs_refSpans cs_refSpansG
+  have hb : cs_hierBefore {} calls = (hierBefore {} calls).map (fun x => (cs_toH x.1, x.2)) :=
+    (cs_br_hierBefore {} calls).symm
+  rw [hb, List.filterMap_map, List.map_filterMap]
+  apply cs_filterMap_congr
+  rintro ⟨h, c⟩ _
+  cases c <;> simp [cs_siOf, cs_pc, cs_toSI, cs_br_nearest, cs_br_resolve, cs_toH, cs_br_cap, cs_br_maxId]
+
+theorem cs_br_refEvents (flt sites calls) :
+    (refEvents flt sites calls).map cs_toEI = cs_refEvents flt sites calls := by
+  unfold refEvents cs_refEvents cs_refEventsG
+  have hb : cs_hierBefore {} calls = (hierBefore {} calls).map (fun x => (cs_toH x.1, x.2)) :=
+    (cs_br_hierBefore {} calls).symm
+  rw [hb, List.filterMap_map, List.map_filterMap]
+  apply cs_filterMap_congr
+  rintro ⟨h, c⟩ _
+  cases c <;> simp [cs_eiOf, cs_pc, cs_toEI, cs_br_nearest, cs_br_resolve, cs_toH, cs_br_cap, cs_br_maxId]
+
+
+theorem cs_br_expected (flt sites calls) : expectedStorage flt sites calls = cs_expected flt sites calls := by
+  unfold cs_expected cs_mk
+  rw [← cs_br_refSpans, ← cs_br_refEvents, cs_mkStorage_map]
+  unfold expectedStorage cs_mkStorage cs_fns
+  simp only [cs_mkSpan, cs_idxWhere, Function.comp, cs_toSI, cs_toEI]
+  congr 1
+  apply List.map_congr_left
+  rintro ⟨s, i⟩ _
+  simp only [cs_br_values, cs_br_maxId, cs_br_cap]
+  congr 1
+  rw [cs_br_closed, cs_br_hierFinal]
+
 /-- The storage of every layer is exactly the reference: the enabled spans and events in
     emission order, values in recording order with later records overriding in place, each
     attached to its nearest captured ancestor (explicit and root parents honoured, filtered-out
@@ -159,7 +251,12 @@ theorem C05_storage_is_spec (filters : List LFilter) (global : Option Nat) (site
     w.panicked = false ∧ w.storages.length = filters.length ∧
     ∀ i, i < filters.length →
       w.storages.getD i {} = expectedStorage (filters.getD i .all) sites (callLogF global sites ops) := by
-  sorry
+  intro w
+  have h := cs_main filters global sites ops hwf
+  refine ⟨h.1, h.2.1, ?_⟩
+  intro i hi
+  rw [cs_br_expected, cs_br_callLogF]
+  exact h.2.2 i hi
 
 /-- Non-vacuity: an interior span removed by the layer filter, an explicit root, a record
     overriding a value in place, a clone keeping a span open, a follows-from edge. -/
